@@ -1144,16 +1144,16 @@ fn rebuild(b: &Bounds, hist: &[Op]) -> World {
     w
 }
 
-/// The configurations explored per tier: the main one, and (thorough) a second one with four
-/// timers alive over a reduced alphabet (sleeps and interval only).
+/// The configurations explored per tier: the main one, and a second one with four timers alive
+/// over a reduced alphabet (sleeps and interval only).
 pub fn configs(tier: Tier) -> Vec<(&'static str, Bounds)> {
     let main = Bounds::for_tier(tier);
     let mut v = vec![("A: three timers alive, full alphabet", main.clone())];
-    if tier == Tier::Thorough && std::env::var_os("C09_ONLY_MAIN").is_none() {
+    if std::env::var_os("C09_ONLY_MAIN").is_none() {
         v.push((
             "B: four timers alive, sleeps and interval only",
             Bounds {
-                max_clock: 6,
+                max_clock: tier.pick(5, 8),
                 max_alive: 4,
                 max_timeouts: 0,
                 iv_periods: vec![2],
